@@ -124,7 +124,9 @@ pub fn slow_reader(st: &State, t: &mut Toks) -> PResult<String> {
 }
 
 fn request(dict: &Arc<Dictionary>, sid: &str, hop: u32) -> Vec<u8> {
-    let mut m = DiameterMessage::new(CommandCode::CreditControl, ApplicationId::CreditControl, 0x80, hop, hop ^ 0x5555, Arc::clone(dict));
+    // every third request carries the T flag ("potentially re-transmitted"): to the library it is a request like any other
+    let fl = if hop % 3 == 2 { 0x80 | 0x10 } else { 0x80 };
+    let mut m = DiameterMessage::new(CommandCode::CreditControl, ApplicationId::CreditControl, fl, hop, hop ^ 0x5555, Arc::clone(dict));
     m.add_avp(263, None, M, UTF8String::new(sid).into());
     m.add_avp(264, None, M, Identity::new("client.example.com").into());
     // requests carry a Grouped AVP two levels deep, as real Credit-Control requests do (Multiple-Services-Credit-Control
@@ -379,6 +381,7 @@ pub fn tls_history(st: &State, t: &mut Toks) -> PResult<String> {
         tokio::time::sleep(Duration::from_millis(idle)).await;
         let mut o = String::from("TLSHIST");
         let mut rounds = Vec::new();
+        let mut late = "not-run";
         for round in 0..2 {
             if round == 1 {
                 for _ in 0..4 {
@@ -408,8 +411,21 @@ pub fn tls_history(st: &State, t: &mut Toks) -> PResult<String> {
                 Err(_) => "timeout",
             };
             rounds.push(r);
+            if round == 1 && idle > 0 {
+                // the same connection, used again after it has been open for longer than any handshake deadline
+                tokio::time::sleep(Duration::from_millis(idle + 4500)).await;
+                let mut req = DiameterMessage::new(CommandCode::CreditControl, ApplicationId::CreditControl, 0x80, 99, 1, Arc::clone(&dict));
+                req.add_avp(263, None, M, UTF8String::new("hist-late").into());
+                late = match tokio::time::timeout(Duration::from_secs(3), client.send_message(req)).await {
+                    Ok(Ok(fut)) => match tokio::time::timeout(Duration::from_millis(2500), fut).await {
+                        Ok(Ok(_)) => "ok",
+                        _ => "noanswer",
+                    },
+                    _ => "sendfailed",
+                };
+            }
         }
-        let _ = write!(o, " first={} after_bad_peers={}", rounds[0], rounds[1]);
+        let _ = write!(o, " first={} after_bad_peers={} same_connection_later={}", rounds[0], rounds[1], late);
         Ok::<String, String>(o)
     });
     rt.shutdown_timeout(Duration::from_millis(200));
@@ -428,7 +444,9 @@ pub fn tls_rotate(st: &State, _t: &mut Toks) -> PResult<String> {
     let before = std::env::var_os("SSL_CERT_FILE");
     std::fs::write(&tmp, &with_ca).map_err(|e| e.to_string())?;
     std::env::set_var("SSL_CERT_FILE", &tmp);
-    let rt = rt();
+    // (this scenario runs on a CURRENT-THREAD runtime, client and server alike - the flavour `#[tokio::main(flavor = "current_thread")]`
+    // and `#[tokio::test]` give; the other real-socket scenarios use the multi-thread one)
+    let rt = tokio::runtime::Builder::new_current_thread().enable_all().build().map_err(|e| e.to_string())?;
     let tmp2 = tmp.clone();
     let out = rt.block_on(async move {
         let seen = Arc::new(Mutex::new(Vec::new()));
@@ -565,6 +583,25 @@ async fn faulty_peer(addr: std::net::SocketAddr, tls: bool, dict: Arc<Dictionary
                         f.extend_from_slice(&[0, 0, 1, 200, 0x40, (l >> 16) as u8, (l >> 8) as u8, l as u8]);   // 456 Multiple-Services-Credit-Control (Grouped)
                     }
                     let _ = c.write_all(&f).await;
+                }
+                "announce-stall" => {
+                    // announces the largest legal frame (1 MiB), sends half of it and stays connected, silent
+                    let mut f = vec![1u8, 0x10, 0, 0, 0x80, 0, 1, 16, 0, 0, 0, 4, 0, 0, 0, 1, 0, 0, 0, 2];
+                    f.extend_from_slice(&[0, 0, 0, 25, 0, 0x0f, 0xff, 0xec]);
+                    f.resize(512 * 1024, 0x11);
+                    let _ = c.write_all(&f).await;
+                    tokio::time::sleep(hold).await;
+                }
+                "exact-1mib" => {
+                    // one well-formed request of exactly 1 MiB (the largest the server accepts), answered or not, then silence
+                    let mut m = DiameterMessage::new(CommandCode::CreditControl, ApplicationId::CreditControl, 0x80, 9, 9 ^ 0x5555, Arc::clone(&dict));
+                    m.add_avp(263, None, M, UTF8String::new("big-peer").into());
+                    let used = m.get_length() as usize;
+                    m.add_avp(25, None, 0, OctetString::new(vec![0x22; 1024 * 1024 - used - 8]).into());
+                    let mut b = Vec::new();
+                    let _ = m.encode_to(&mut b);
+                    let _ = c.write_all(&b).await;
+                    tokio::time::sleep(hold).await;
                 }
                 "vendor-zero" => {
                     // a request in which a base AVP (Origin-Host, 264) carries the V flag and Vendor-Id 0: not what the dictionary
